@@ -477,6 +477,10 @@ def main(tier):
         # "AsCore", "AsCore_Trace", "AsCore_MC", "AsCore_Gen" (AsCore also INSTANCEs "Symbols": the symbol table)
         from checks import ext_ascore
         ext_ascore.run(rep, bld, tier)
+    # IFUSED / IFNUSED across passes (spec/PassModes.tla, mode "used"): the ladder tests what the statements IN FRONT of
+    # it referenced in THIS pass - added after the seeded change C12-used-flag-survives-pass
+    from checks import ext_passmodes
+    ext_passmodes.run(rep, bld, tier, only=["used"])
     return rep.finish(
         rule="programs = every transition of the CondAsm machine graph (TLC transition cover, shortest prefix + "
              "balancing closers) + TLC-simulated grammatical programs (depth<=4, <=24 statements) rendered with "
